@@ -12,6 +12,7 @@ import (
 	"fmt"
 	"hash/adler32"
 	"io"
+	"sort"
 	"strings"
 
 	"github.com/gotd/td/mtproxy"
@@ -462,6 +463,40 @@ func main() {
 		stream("boundary", []wspec{{196605, 1, 3}}, true)
 		stream("boundary", []wspec{{196606, 1, 3}}, true)
 	}
+	// every write size in the dense ranges where buffers / small-record paths usually switch
+	// (0..4200, around every power of two up to 2^17, around multiples of the record limit): Go oracle only
+	sweep := map[int]bool{}
+	for n := 0; n <= 4200; n++ {
+		sweep[n] = true
+	}
+	for k := 12; k <= 17; k++ {
+		for d := -9; d <= 9; d++ {
+			sweep[1<<uint(k)+d] = true
+		}
+	}
+	for m := 1; m <= 2; m++ {
+		for d := -6; d <= 6; d++ {
+			sweep[65535*m+d] = true
+		}
+	}
+	var sizes []int
+	for n := range sweep {
+		sizes = append(sizes, n)
+	}
+	sort.Ints(sizes)
+	for _, n := range sizes {
+		if !c.Thorough() && n > 4200 && c.Rng.Chance(1, 2) {
+			continue
+		}
+		stream("sweep", []wspec{{n, c.Rng.Intn(256), 1 + c.Rng.Intn(255)}}, false)
+	}
+	for i := 0; i < c.N(12, 300); i++ { // a sample of the sweep also goes to the model
+		stream("sweep-model", []wspec{{c.Rng.Range(0, 4200), c.Rng.Intn(256), 1 + c.Rng.Intn(255)}}, true)
+	}
+	// the last record of a chunked write falls into the same ranges
+	for i := 0; i < c.N(40, 2000); i++ {
+		stream("sweep-tail", []wspec{{65535*c.Rng.Range(1, 2) + c.Rng.Range(0, 4200), c.Rng.Intn(256), 1 + c.Rng.Intn(255)}, {c.Rng.Range(2030, 2060), 1, 3}}, false)
+	}
 	// several MiB: Go oracle only
 	stream("large", []wspec{{3 << 20, 3, 11}}, false)
 	stream("large", []wspec{{1<<20 + 17, 3, 11}, {65536, 1, 1}, {2<<20 - 1, 9, 5}}, false)
@@ -520,7 +555,7 @@ func main() {
 	for i := 0; i < c.N(100, 3000); i++ {
 		hello(helloCase{scen[c.Rng.Intn(len(scen))], []int{0, 0, 1, 2, 5, 15}[c.Rng.Intn(6)], c.Rng.U64()})
 	}
-	c.Obs.Rule = "FakeTLS write sequences with sizes {0,1,65535,65536,65537,70000,131070,131071} and random 0..20000 (patterned payloads), read back with random buffer sizes through a random-chunk reader, 3 MiB writes under the Go oracle only; hand-made and random malformed record streams; FakeTLS.Handshake against scripted server hellos in 12 scenarios x extra handshake records {0..17}. Non-trivial = distinct non-empty write sequence / distinct raw wire / distinct hello scenario instance"
+	c.Obs.Rule = "FakeTLS write sequences with sizes {0,1,65535,65536,65537,70000,131070,131071} and random 0..20000 (patterned payloads), every single write size 0..4200 and around each power of two up to 2^17 / multiples of 65535 (Go oracle only, a sample also through the model), read back with random buffer sizes through a random-chunk reader, 3 MiB writes under the Go oracle only; hand-made and random malformed record streams; FakeTLS.Handshake against scripted server hellos in 12 scenarios x extra handshake records {0..17}. Non-trivial = distinct non-empty write sequence / distinct raw wire / distinct hello scenario instance"
 	c.Finish()
 }
 
